@@ -68,7 +68,7 @@ func (t *traceRec) accept(x *runner, s *step, rec *consensusproto.RawRecordWithI
 	if t == nil {
 		return
 	}
-	t.emit(map[string]any{"ev": "Accept", "a": s.A, "cs": csJSON(s.Cs), "st": specShape(x.w.refProj[len(x.w.log)-1], x.b.Accounts)})
+	t.emit(map[string]any{"ev": "Accept", "a": s.A, "cs": csJSON(s.Cs), "enc": s.Enc, "st": specShape(x.w.refProj[len(x.w.log)-1], x.b.Accounts)})
 }
 
 func (t *traceRec) refused(x *runner, a string, cs []content) {
@@ -300,7 +300,7 @@ func (x *runner) randomAccept(rng *rand.Rand) *step {
 				}
 			}
 		}
-		return &step{Act: "Accept", A: a, Cs: cs}
+		return &step{Act: "Accept", A: a, Cs: cs, Enc: pick(rng, []string{"canonical", "canonical", "typeSpelled", "unknownField"})}
 	}
 	return nil
 }
